@@ -94,6 +94,9 @@ func (ps *Parser) Images() []data.MarkupImage {
 	hasRepresentativeImage := false
 	for _, item := range ps.getImageItems() {
 		image := item.getImage()
+		if image == nil {
+			continue
+		}
 
 		// Insert `image` at beginning of list if it's the associated image of an
 		// article, or it's the first image that's representative of page.
